@@ -43,9 +43,77 @@ def run(ctx):
     verdict_sources(ctx, g)
     fallback_constants(ctx, g)
     data_table(ctx, g)
+    orbit_type_labels(ctx, g)
     ctx.clauses.append("no panic from the point-group lookup (shared with C15)")
     c15.candidates(ctx, g)
     c15.point_groups(ctx, g)
+
+
+M = "delaney3d::"
+
+
+def orbit_type_labels(ctx, g):
+    """orbit_type_1d (the edge labels of the orbifold graph, part of the invariant looked up in the table): an (i, j)-orbit is marked as
+    lying on a mirror iff SOME chamber e of the orbit is fixed by op(i, .) or by op(j, .) -- both indices, tested at every chamber of the
+    orbit (the representative alone is not enough: a chain's ends are where the mirrors are); the degree is written bare only if <= 9"""
+    ctx.clauses.append("orbifold-graph edge labels: mirror test over every chamber of the orbit and both indices; multi-digit degrees parenthesised (T2/T3)")
+    b = ctx.body(M + "orbit_type_1d")
+    ctx.scan(ctx.facts.with_closures(b.name))
+    ds, i_, j_, d_ = (("param", k, b.debug.get(k, "")) for k in (1, 2, 3, 4))
+    anys = list(b.calls("Iterator::any"))
+    ctx.require(len(anys) >= 1, "T2-mirror-test", b.name, "any(..)", "existential test over the orbit", "orbit_type_1d no longer asks whether ANY chamber of the orbit lies on a mirror")
+    for bi, t in anys[:1]:
+        src = norm(b.origin(t["args"][0]), g)
+        src = norm(b.def_origin(src), g) if src[0] == "local" else src
+        oksrc = contains(src, lambda x: x[0] == "call" and x[1].endswith("DSet::orbit") and strip(x[2][0]) == ds and strip(x[2][2]) == d_ and
+                         contains(x[2][1], lambda y: y == i_) and contains(x[2][1], lambda y: y == j_))
+        ctx.ob("T2-mirror-test", b.name, "chambers", "ok" if oksrc else "violation",
+               "the mirror test runs over ds.orbit([i, j], d)" if oksrc else "the mirror test does not run over the (i, j)-orbit of d: " + show(src, 1)[:90], b.span_of(bi))
+        clo = norm(b.origin(t["args"][1]), g)
+        parts = closure_parts(clo)
+        if parts is None:
+            ctx.ob("T2-mirror-test", b.name, "closure", "violation", "the mirror test is not a closure literal")
+            continue
+        cname, caps = parts
+        cb = ctx.facts.bodies.get(cname)
+        if cb is None:
+            raise AnchorMissing(cname)
+        capmap = {("field", ("param", 1, ""), str(k)): strip(v) for k, v in enumerate(caps)}
+        e_ = ("param", 2, "")
+        tested = set()
+        bad = None
+        for bb, atoms in bool_join_disjuncts(cb, 0, g):
+            a = atoms[-1]
+            lhs = rhs = None
+            if a[0] == "rel" and a[1] == "Eq":
+                lhs, rhs = a[2], a[3]
+            elif a[0] == "bool" and a[2] is True and a[1][0] == "call" and a[1][1].endswith("PartialEq::eq"):
+                lhs, rhs = a[1][2]
+            if lhs is None:
+                bad = "a way of answering `on a mirror` is not a fixed-point test op(k, e) == Some(e): " + show_atom(a)[:70]
+                continue
+            if lhs[0] != "call":
+                lhs, rhs = rhs, lhs
+            okf = lhs[0] == "call" and lhs[1].endswith("DSet::op") and capmap.get(strip(lhs[2][0])) == ds and strip(lhs[2][2]) == e_ and \
+                rhs[0] == "agg" and rhs[1].endswith("Option::Some") and strip(rhs[2][0]) == e_
+            if not okf:
+                bad = "a mirror test is not op(k, e) == Some(e) at the orbit chamber e handed to the closure: %s (a test at the representative only misses mirrors at the other chambers of a chain)" % show_atom(a)[:80]
+                continue
+            tested.add(capmap.get(strip(lhs[2][1])))
+        if not bad and tested != {i_, j_}:
+            bad = "the mirror test covers the indices %s, not both i and j" % sorted(show(x, 1) for x in tested if x)
+        ctx.ob("T2-mirror-test", b.name, "op(i, e) == Some(e) || op(j, e) == Some(e)", "ok" if not bad else "violation",
+               "some chamber of the orbit fixed by op i or op j" if not bad else bad, b.span_of(bi))
+    # digits: the doubled bare form only under v <= 9
+    v_ = None
+    for bi, t in b.calls("Option::<T>::unwrap"):
+        a = norm(b.origin(t["args"][0]), g)
+        if a[0] == "call" and a[1].endswith("DSym::v"):
+            v_ = ("call", t["callee"]["def"], (a,))
+            okv = [strip(x) for x in a[2]] == [ds, i_, j_, d_]
+            ctx.ob("T2-mirror-test", b.name, "v = ds.v(i, j, d)", "ok" if okv else "violation", "the label's degree is the orbit's own branching number" if okv else "the degree is not ds.v(i, j, d): " + show(a, 1)[:60])
+    ctx.require(v_ is not None, "T2-mirror-test", b.name, "v anchor", "degree found", "ds.v(i, j, d).unwrap() not found")
+
 
 
 def aggregates(ctx, variant):
